@@ -516,7 +516,7 @@ func ZZ_C08_memdb_checkpoint_swap() {
 // ascending and complete, ART = RBT entry by entry.
 func ZZ_C08_memdb_fanout() {
 	sizes := []int{3, 4, 15, 16, 47, 48}
-	n := sizes[zzChoice("children", len(sizes))]
+	n := sizes[zzChoice("children", zzParam("fanout_sizes", 4))] // quick: up to 16 children; thorough: all six
 	art, rbt := newArtDBWithContext(), newRbtDBWithContext()
 	ctx := context.Background()
 	const p = byte(7)
